@@ -129,6 +129,10 @@ def infra(msg):
 
 
 def main():
+    # `kill -USR1 <pid>` prints where a long run is (stderr), without stopping it
+    import faulthandler
+    import signal
+    faulthandler.register(signal.SIGUSR1, all_threads=True)
     ap = argparse.ArgumentParser()
     ap.add_argument('prop')
     ap.add_argument('--tier', default=os.environ.get('VERIF_TIER', 'quick'), choices=['quick', 'thorough'])
